@@ -90,9 +90,13 @@ def nontrivial(f):
     return f["temp_tenths"] > 0 and f["target"] > 0
 
 
+CALLBACK_FORMS = ["bound-method", "function", "partial", "unreferenced-owner", "falsy-callable"]
+
+
 async def run_batch(rep, case, sub):
     rig = udptx.Rig(1)
-    await rig.start()
+    # the user's callback comes in every shape a callable has (C07 has the details)
+    await rig.start(CALLBACK_FORMS[case.get("salt", 2) % len(CALLBACK_FORMS)])
     try:
         port = rig.ports[0]
         dead = None
